@@ -366,6 +366,9 @@ addresses per family. non-trivial = >= 2 addresses with >= 2 different behaviour
                 }
             }
         }
+        // a name that resolves to no address at all: an error, like any other name that cannot be reached
+        all.push(Case { addrs: vec![], connect_ms: 600, deadline: 0, literal: false, mapped: false });
+        all.push(Case { addrs: vec![], connect_ms: 600, deadline: 3, literal: false, mapped: false });
         // IPv4-mapped IPv6 addresses are IPv6 addresses: they take the IPv6 places in the order of the attempts
         all.push(Case { addrs: vec![(false, Beh::BlackHole), (true, Beh::Accept)], connect_ms: 600, deadline: 0, literal: false, mapped: true });
         all.push(Case { addrs: vec![(false, Beh::Accept), (true, Beh::Accept)], connect_ms: 600, deadline: 0, literal: false, mapped: true });
@@ -375,7 +378,7 @@ addresses per family. non-trivial = >= 2 addresses with >= 2 different behaviour
         Some(Box::new(
             all.into_iter()
                 .enumerate()
-                .filter(move |(i, c)| i % stride == 0 || c.literal || c.mapped || c.connect_ms < 200 || c.connect_ms == u16::MAX || (c.deadline == 2 && c.addrs.len() == 2 && c.addrs[0].1 == Beh::Refuse))
+                .filter(move |(i, c)| i % stride == 0 || c.literal || c.mapped || c.addrs.is_empty() || c.connect_ms < 200 || c.connect_ms == u16::MAX || (c.deadline == 2 && c.addrs.len() == 2 && c.addrs[0].1 == Beh::Refuse))
                 .map(|(_, c)| c)
                 .enumerate()
                 .filter(move |(i, _)| i % nworkers == worker)
